@@ -249,9 +249,11 @@ theorem liftSpec_blockSelect {m0 m1 : Mat K} {c n : Nat} {qs : List Nat}
     rw [Nat.add_comm, Nat.add_mul_mod_self_right, Nat.mod_eq_of_lt (gateIndex_lt qs x)]
   have hlt : ∀ x, bit x c * 2 ^ qs.length + gateIndex qs x < 2 * 2 ^ qs.length := by
     intro x
-    have := bit_lt_two x c
-    have := gateIndex_lt qs x
-    nlinarith
+    have h1 := bit_lt_two x c
+    have h2 := gateIndex_lt qs x
+    have h3 : bit x c * 2 ^ qs.length ≤ 1 * 2 ^ qs.length := Nat.mul_le_mul_right _ (by omega)
+    generalize 2 ^ qs.length = N at *
+    omega
   by_cases hA : agreeOutside (c :: qs) n r c' = true
   · rw [if_pos hA, gateIndex_cons, gateIndex_cons,
       get_blockSelect hN h0r h0c h1r h1c (hlt r) (hlt c'), hdiv, hdiv, hmod, hmod]
@@ -276,11 +278,22 @@ theorem liftSpec_adjoint {m : Mat K} {qs : List Nat} {n : Nat} (hr : m.r = 2 ^ q
   intro r c hr' hc'
   have hr'' : r < 2 ^ n := hr'
   have hc'' : c < 2 ^ n := hc'
-  unfold liftSpec
-  rw [get_build hr'' hc'', get_adjoint (by simpa using hr'') (by simpa using hc''), get_build hc'' hr'',
-    agreeOutside_symm qs n c r]
+  have e1 : (liftSpec (adjoint m) qs n).get r c =
+      if agreeOutside qs n r c = true then conj (m.get (gateIndex qs c) (gateIndex qs r)) else 0 := by
+    unfold liftSpec
+    rw [get_build hr'' hc'']
+    by_cases hA : agreeOutside qs n r c = true
+    · rw [if_pos hA, if_pos hA,
+        get_adjoint (by rw [hc]; exact gateIndex_lt _ _) (by rw [hr]; exact gateIndex_lt _ _)]
+    · rw [if_neg hA, if_neg hA]
+  have e2 : (adjoint (liftSpec m qs n)).get r c = conj ((liftSpec m qs n).get c r) :=
+    get_adjoint (A := liftSpec m qs n) hr'' hc''
+  have e3 : (liftSpec m qs n).get c r =
+      if agreeOutside qs n c r = true then m.get (gateIndex qs c) (gateIndex qs r) else 0 := by
+    unfold liftSpec; rw [get_build hc'' hr'']
+  rw [e1, e2, e3, agreeOutside_symm qs n c r]
   by_cases hA : agreeOutside qs n r c = true
-  · rw [if_pos hA, if_pos hA, get_adjoint (by rw [hc]; exact gateIndex_lt _ _) (by rw [hr]; exact gateIndex_lt _ _)]
+  · rw [if_pos hA, if_pos hA]
   · rw [if_neg hA, if_neg hA, QV.C14.conj_zero]
 
 /-- the identity placed anywhere is the identity -/
